@@ -495,7 +495,7 @@ def _pyval(v):
     return v.get("v")
 
 
-def signature_edit(rng, desc):
+def signature_edit(rng, desc, prefer=None):
     """One small structural edit that changes the canonical signature of node i.
     Returns (edited description, kind, i, which) where which is 'raw' (raw and full identifiers of i must
     change) or 'full' (only the full identifier must change), or None."""
@@ -503,8 +503,11 @@ def signature_edit(rng, desc):
     n = len(d["nodes"])
     kinds = ["scalar", "list-swap", "list-move", "dict-rename", "dict-move", "sibling-move", "list-len", "constant",
              "type-identifier", "pre-task", "init-order", "enum-member", "dict-swap-values", "nested-move",
-             "optional-none-vs-default", "listdict-move", "listdict-empty-swap"]
+             "optional-none-vs-default", "listdict-move", "listdict-empty-swap", "upstream-task", "upstream-task",
+             "pre-to-init", "pre-to-init"]
     rng.shuffle(kinds)
+    if prefer:
+        kinds = [prefer] + [k for k in kinds if k != prefer]
     assigned = {(a["n"], a["name"]) for a in d["actions"] if a["a"] == "set"}
     for kind in kinds:
         cands = list(range(n))
@@ -693,6 +696,89 @@ def signature_edit(rng, desc):
                 d["nodes"].append(dict(cls="Pre", kw=[["v", vint(rng.choice([901, 902, 903]))]]))
                 d["actions"].insert(0, dict(a="pre", n=i, ids=[len(d["nodes"]) - 1]))
                 return d, kind, i, "full"
+            if kind == "upstream-task":
+                # node i holds the OUTPUT of a task T (a "set" action or a keyword whose value is out(T)): a different
+                # parameter of T must change the identifier of i (the producing task is part of the signature)
+                outs = [a["v"]["n"] for a in d["actions"] if a["a"] == "set" and a["n"] == i and a["v"]["t"] == "out"]
+                outs += [v["n"] for _, v in nd["kw"] if v["t"] == "out"]
+                outs = [t for t in outs if t != i and t < n]
+                if not outs:
+                    continue
+                t = rng.choice(outs)
+                tnd = d["nodes"][t]
+                tkw = _kwd(tnd)
+                slots = [(s_, k.rstrip("!").lstrip("o")) for s_, k in SLOTS[tnd["cls"]].items()
+                         if k.rstrip("!").lstrip("o") in ("int", "str") and s_ not in IGNORED.get(tnd["cls"], set())
+                         and (t, s_) not in assigned]
+                if not slots:
+                    continue
+                s_, k = rng.choice(slots)
+                old = tkw.get(s_)
+                dflt = DEFAULTS.get((tnd["cls"], s_))
+                oldp = _pyval(old) if old is not None and old != NONE else dflt
+                for _ in range(6):
+                    v = _scalar_different(rng, k, old)
+                    if _pyval(v) != oldp:
+                        tnd["kw"] = [[a, b] for a, b in tnd["kw"] if a != s_] + [[s_, v]]
+                        d["edited_node"] = t
+                        return d, kind, i, "raw"
+                continue
+            if kind == "pre-to-init" and cls in ("TaskA", "TaskOut", "NewT") and rng.random() < 0.8:
+                # constructive form: two fresh lightweight tasks P, Q.  a: pre-tasks {P}, init [Q] + I;
+                # b: pre-tasks {}, init [P, Q] + I (the caller takes the returned `base` as side a)
+                used = any(v_.get("t") == "out" and v_.get("n") == i for nd_ in d["nodes"] for _, v_ in nd_["kw"]) or \
+                    any(a["a"] == "set" and a["v"].get("t") == "out" and a["v"].get("n") == i for a in d["actions"])
+                if used:
+                    continue            # submitted implicitly by an out(...) reference earlier in the build
+                base = copy.deepcopy(d)
+                for g_ in (base, d):
+                    g_["nodes"].append(dict(cls="Pre", kw=[["v", vint(911)]]))
+                    g_["nodes"].append(dict(cls="Init", kw=[["v", vint(912)]]))
+                P, Q = len(d["nodes"]) - 2, len(d["nodes"]) - 1
+                for g_, pre_, head in ((base, [P], [Q]), (d, [], [P, Q])):
+                    subs_ = [a for a in g_["actions"] if a["a"] == "submit" and a["n"] == i]
+                    if subs_:
+                        sub_ = subs_[0]
+                        sub_["init"] = head + list(sub_.get("init", []))
+                    else:
+                        sub_ = dict(a="submit", n=i, init=head)
+                        g_["actions"].append(sub_)
+                    if pre_:
+                        g_["actions"].insert(g_["actions"].index(sub_), dict(a="pre", n=i, ids=pre_))
+                d["base"] = base
+                return d, kind, i, "full"
+            if kind == "pre-to-init":
+                # a lightweight pre-task of a submitted task becomes the head of its init tasks: the sets differ
+                # (pre-tasks {P}, init [Q..] vs pre-tasks {}, init [P, Q..]) and so must the full identifier
+                subs = [a for a in d["actions"] if a["a"] == "submit" and a["n"] == i]
+                pres = [a for a in d["actions"] if a["a"] == "pre" and a["n"] == i]
+                if subs and len(subs[0].get("init", [])) >= 2 and (not pres or rng.random() < 0.5):
+                    # the reverse move: the head of the init tasks becomes a pre-task
+                    sub = subs[0]
+                    p = sub["init"][0]
+                    allpre = [q for a in d["actions"] if a["a"] == "pre" for q in a["ids"]]
+                    if p in allpre or p in sub["init"][1:] or d["nodes"][p]["cls"] not in ("Pre", "Init"):
+                        continue
+                    sub["init"] = sub["init"][1:]
+                    d["actions"].insert(d["actions"].index(sub), dict(a="pre", n=i, ids=[p]))
+                    return d, kind, i, "full"
+                if not subs or not pres:
+                    continue
+                sub, pre = subs[0], rng.choice(pres)
+                if not sub.get("init"):
+                    continue            # with no other init task the two streams differ by the marker alone
+                cand = [p for p in pre["ids"] if d["nodes"][p]["cls"] in ("Pre", "Init") and p not in sub.get("init", [])]
+                # the same object must not stay reachable as a pre-task through another path
+                other = [p for a in d["actions"] if a["a"] == "pre" and a is not pre for p in a["ids"]]
+                cand = [p for p in cand if p not in other and pre["ids"].count(p) == 1]
+                if not cand:
+                    continue
+                p = rng.choice(cand)
+                pre["ids"] = [q for q in pre["ids"] if q != p]
+                if not pre["ids"]:
+                    d["actions"].remove(pre)
+                sub["init"] = [p] + list(sub.get("init", []))
+                return d, kind, i, "full"
             if kind == "init-order":
                 for a in d["actions"]:
                     if a["a"] == "submit" and len(a.get("init", [])) >= 2 and a["n"] == i:
@@ -741,13 +827,48 @@ def diag_text(pairs):
     return "; ".join(f"node {n}: {DIAG.get(k, k)}" for n, k in pairs[:6])
 
 
-def selfmark_suffix(desc, pairs):
+def _export_succs(node):
+    out = []
+
+    def refs(v):
+        if v["t"] == "ref":
+            out.append(v["n"])
+        elif v["t"] == "list":
+            for x in v["v"]:
+                refs(x)
+        elif v["t"] == "dict":
+            for _, x in v["v"]:
+                refs(x)
+
+    for _, v in node["fields"]:
+        refs(v)
+    out.extend(node.get("pre", []))
+    out.extend(node.get("init", []))
+    if node.get("task") is not None:
+        out.append(node["task"])
+    return out
+
+
+def selfmark_suffix(desc, pairs, nodes=None):
     """The recorded C12 finding seen through the cache invariant: a submitted task that marks one of its OWN
-    parameters as its output (class TaskSelf); identifiers were cached at submission, before the mark."""
+    parameters as its output (class TaskSelf); identifiers were cached at submission, before the mark.
+    Only when EVERY configuration the diagnosis names reaches such a task in the exported graph `nodes`
+    (its identifier then depends on the mark); anything else is reported as a new violation."""
     import re as _re
     subs = {a["n"] for a in desc["actions"] if a["a"] == "submit"}
     subs |= {int(m) for m in _re.findall(r'"n": (\d+), "t": "out"', json.dumps(desc, sort_keys=True))}
-    selfsub = any(desc["nodes"][n]["cls"] == "TaskSelf" for n in subs if n < len(desc["nodes"]))
-    if selfsub and pairs and all(k in (3, 4) for _, k in pairs):
-        return ":task-marks-own-parameter"
-    return ""
+    selfsub = {n for n in subs if n < len(desc["nodes"]) and desc["nodes"][n]["cls"] == "TaskSelf"}
+    if not (selfsub and pairs and all(k in (3, 4) for _, k in pairs)):
+        return ""
+    if nodes is not None:
+        for n, _ in pairs:
+            seen, todo = set(), [n]
+            while todo:
+                m = todo.pop()
+                if m in seen or m >= len(nodes):
+                    continue
+                seen.add(m)
+                todo.extend(_export_succs(nodes[m]))
+            if not (seen & selfsub):
+                return ""
+    return ":task-marks-own-parameter"
